@@ -458,6 +458,9 @@ def interp(spec, freq, linear=False):
         psdfull = ifunc(np.log(freq))
         pv = (freq >= Freq[0]) & (freq <= Freq[-1])
         psdfull[pv] = np.exp(psdfull[pv])
+        # log(freq) can equal log(Freq[0]) for a `freq` just outside the
+        # spec; the interpolation then returns log(PSD), not the fill value:
+        psdfull[~pv] = 0.0
     return psdfull
 
 
